@@ -217,8 +217,10 @@ Section ActsSound.
         match get_nodes T w1 rp goal with
         | Err _ => []
         | Ok pack =>
-            run_nodes_acts T teqb hc hl hr (st_leaves T teqb hc w1 t pack) (p_nodes pack) ++
-            match run_nodes T teqb hc hl hr (st_leaves T teqb hc w1 t pack) (p_nodes pack) with
+            let w1t := write_table T w1 (table_rest T hc t pack) in
+            AWriteTable (table_rest T hc t pack) ::
+            run_nodes_acts T teqb hc hl hr (st_leaves T teqb hc w1t t pack) (p_nodes pack) ++
+            match run_nodes T teqb hc hl hr (st_leaves T teqb hc w1t t pack) (p_nodes pack) with
             | None => []
             | Some st2 => join_acts T (rs_results T st2) ++ [AWriteTable (js_table T (joined T teqb hr st2))]
             end
@@ -229,15 +231,16 @@ Section ActsSound.
   Theorem acts_build_sound : forall (w : world) rp goal,
     run_acts (build_acts teqb hc hl hr w rp goal) w = o_world (build teqb hc hl hr w rp goal).
   Proof.
-    intros w rp goal. rewrite build_acts_eq, (build_eq T teqb hc hl hr), run_acts_app.
+    intros w rp goal. rewrite build_acts_eq, (build_eq0 T teqb hc hl hr), run_acts_app.
     destruct (init_dir T w) as [[w1 t]|f] eqn:Ei.
     2:{ rewrite (init_acts_err _ _ Ei). reflexivity. }
     rewrite (init_acts_ok _ _ _ Ei).
     destruct (get_nodes T w1 rp goal) as [pack|f]; [|reflexivity].
-    cbv zeta. rewrite run_acts_app.
-    rewrite (run_nodes_acts_world (p_nodes pack) (st_leaves T teqb hc w1 t pack) w1)
+    cbv zeta. rewrite run_acts_cons. cbn [do_act].
+    set (w1t := write_table T w1 (table_rest T hc t pack)). rewrite run_acts_app.
+    rewrite (run_nodes_acts_world (p_nodes pack) (st_leaves T teqb hc w1t t pack) w1t)
       by (symmetry; apply st_leaves_world).
-    destruct (run_nodes T teqb hc hl hr (st_leaves T teqb hc w1 t pack) (p_nodes pack)) as [st2|] eqn:En.
+    destruct (run_nodes T teqb hc hl hr (st_leaves T teqb hc w1t t pack) (p_nodes pack)) as [st2|] eqn:En.
     - rewrite (upto_some _ _ _ En). cbn [o_world]. rewrite run_acts_app.
       change (rs_world T st2) with (js_world T (mk_js T (rs_world T st2) (rs_table T st2) [] [])).
       rewrite join_acts_world. reflexivity.
